@@ -485,6 +485,11 @@ func runC02(c *Ctx) {
 	checkUnsignedDifferences(c, "C02.U1 unsigned-difference-guarded", func(fn *ssa.Function) bool { return strings.HasPrefix(FuncKey(fn), "pkg/consensus/liskbft.") }, c02UnsignedTable, 0)
 
 	// ---- D2
+	if setP := c.Anchor("pkg/consensus/liskbft.(*API).SetBFTParameters"); setP != nil {
+		// the thresholds the height computation compares against are the LIP's function of the
+		// weights (prevote threshold ⌊2W/3⌋+1), stored as checked
+		checkThresholdBounds(c, "C02", setP)
+	}
 	if upd := c.Anchor("pkg/consensus/liskbft.(*BFTVotes).updatePrevotesPrecommits"); upd != nil {
 		checkVoteDiscipline(c, "C02", upd, false)
 	}
